@@ -143,8 +143,28 @@ impl Check for C12 {
     /// Direct cases: program text.
     fn direct_case(&self, data: &[u8], ctx: &mut Ctx) -> Outcome {
         match std::str::from_utf8(data) {
+            Ok(t) if t.starts_with(EXPORT_TAG) => rust_export_direct(&t[EXPORT_TAG.len()..], ctx),
             Ok(t) => check_text(t, None, ctx),
             Err(_) => Outcome::Skip("not-utf8"),
+        }
+    }
+    /// Every corpus type exported alone on a fresh thread, and after its registry
+    /// neighbour (and the other way round).
+    fn enumerate(&self, _tier: Tier, shard: u64, nshards: u64, emit: &mut dyn FnMut(&[u8]) -> bool) {
+        let reg = registry();
+        let mut k = 0u64;
+        for i in 0..reg.len() {
+            let j = (i + 1) % reg.len();
+            for d in [
+                format!("{EXPORT_TAG}{}", reg[i].name()),
+                format!("{EXPORT_TAG}{}|{}", reg[i].name(), reg[j].name()),
+                format!("{EXPORT_TAG}{}|{}", reg[j].name(), reg[i].name()),
+            ] {
+                k += 1;
+                if k % nshards == shard && !emit(d.as_bytes()) {
+                    return;
+                }
+            }
         }
     }
     fn one_case(&self, data: &[u8], ctx: &mut Ctx) -> Outcome {
@@ -318,31 +338,97 @@ fn rust_export_case(e: &mut Ent, ctx: &mut Ctx) -> Outcome {
     let reg = registry();
     let n = e.range(1, 4);
     let idx: Vec<usize> = (0..n).map(|_| e.below(reg.len())).collect();
+    // The derive macro memoizes types per thread, so what a container exports can
+    // depend on which types were derived before: half of the cases run on a fresh
+    // thread after a generated history of other exports.
+    let fresh = e.bool();
+    let hist: Vec<usize> = if fresh { (0..e.range(0, 3)).map(|_| e.below(reg.len())).collect() } else { vec![] };
+    let mut names = idx.iter().map(|i| reg[*i].name()).collect::<Vec<_>>().join(", ");
+    if fresh {
+        names.push_str(&format!(" [fresh thread, after exporting: {}]", hist.iter().map(|i| reg[*i].name()).collect::<Vec<_>>().join(", ")));
+    }
+    ctx.class("rust-exported-environment");
+    let job = {
+        let names = names.clone();
+        move || export_and_judge(&idx, &hist, &names)
+    };
+    let r = if fresh {
+        ctx.class("rust-export-on-fresh-thread-after-history");
+        match std::thread::Builder::new().stack_size(16 << 20).spawn(job).map(|h| h.join()) {
+            Ok(Ok(r)) => r,
+            _ => return Outcome::Fail(Failure::new("type-container:thread-died", format!("export thread died\ntypes: {names}"))),
+        }
+    } else {
+        job()
+    };
+    match r {
+        Err(f) => Outcome::Fail(f),
+        Ok((printed, nonempty)) => {
+            if nonempty {
+                ctx.nontrivial(digest_of(printed.as_bytes()));
+            }
+            ctx.sample(|| format!("Rust types ({names}) export to:\n{printed}"));
+            Outcome::Pass
+        }
+    }
+}
+
+const EXPORT_TAG: &str = "#rust-export:";
+
+/// `NAME[,NAME..][|HISTORY_NAME[,..]]`: export on a fresh thread.
+fn rust_export_direct(spec: &str, ctx: &mut Ctx) -> Outcome {
+    let reg = registry();
+    let find = |n: &str| reg.iter().position(|t| t.name() == n);
+    let (tys, hist) = spec.split_once('|').unwrap_or((spec, ""));
+    let idx: Option<Vec<usize>> = tys.split(',').map(|n| find(n.trim())).collect();
+    let hist: Option<Vec<usize>> = hist.split(',').filter(|n| !n.trim().is_empty()).map(|n| find(n.trim())).collect();
+    let (idx, hist) = match (idx, hist) {
+        (Some(i), Some(h)) => (i, h),
+        _ => return Outcome::Skip("unknown-corpus-type"),
+    };
+    ctx.class("rust-export-enumerated");
+    let names = spec.to_string();
+    let job = {
+        let names = names.clone();
+        move || export_and_judge(&idx, &hist, &names)
+    };
+    match std::thread::Builder::new().stack_size(16 << 20).spawn(job).map(|h| h.join()) {
+        Ok(Ok(Ok((printed, nonempty)))) => {
+            if nonempty {
+                ctx.nontrivial(digest_of(printed.as_bytes()));
+            }
+            Outcome::Pass
+        }
+        Ok(Ok(Err(f))) => Outcome::Fail(f),
+        _ => Outcome::Fail(Failure::new("type-container:thread-died", format!("export thread died\ntypes: {names}"))),
+    }
+}
+
+fn export_and_judge(idx: &[usize], hist: &[usize], names: &str) -> Result<(String, bool), Failure> {
+    let reg = registry();
     let exported = guard(|| {
+        for h in hist {
+            let mut c = candid::types::internal::TypeContainer::new();
+            let _ = reg[*h].add_to(&mut c);
+        }
         let mut c = candid::types::internal::TypeContainer::new();
         let tys: Vec<Type> = idx.iter().map(|i| reg[*i].add_to(&mut c)).collect();
         (c.env, tys)
     });
     let (env, _tys) = match exported {
         Ok(x) => x,
-        Err(p) => return Outcome::Fail(Failure::new(format!("type-container:{}", p.sig()), p.message)),
+        Err(p) => return Err(Failure::new(format!("type-container:{}", p.sig()), p.message)),
     };
-    ctx.class("rust-exported-environment");
-    let names = idx.iter().map(|i| reg[*i].name()).collect::<Vec<_>>().join(", ");
     let original = match sem_of_candid(&env, &None) {
         Ok(s) => s,
-        Err(err) => return Outcome::Fail(Failure::new("rust-export:env-not-closed", format!("{err}\ntypes: {names}\n{env}"))),
+        Err(err) => return Err(Failure::new("rust-export:env-not-closed", format!("{err}\ntypes: {names}\n{env}"))),
     };
     let printed = match guard(|| compile(&env, &None)) {
         Ok(s) => s,
-        Err(p) => return Outcome::Fail(Failure::new(format!("compile:{}", p.sig()), p.message)),
+        Err(p) => return Err(Failure::new(format!("compile:{}", p.sig()), p.message)),
     };
     if let Err(f) = recheck("compile(rust-export)", &printed, &original, false) {
-        return Outcome::Fail(Failure::new(f.sig, format!("{}\ntypes: {names}", f.msg)));
+        return Err(Failure::new(f.sig, format!("{}\ntypes: {names}", f.msg)));
     }
-    if !env.0.is_empty() {
-        ctx.nontrivial(digest_of(printed.as_bytes()));
-    }
-    ctx.sample(|| format!("Rust types ({names}) export to:\n{printed}"));
-    Outcome::Pass
+    Ok((printed, !env.0.is_empty()))
 }
